@@ -66,7 +66,12 @@ def main():
             sh(["git", "-C", "/repo", "checkout", "--", "."])
         else:
             sh(["git", "-C", "/repo", "worktree", "remove", "--force", repo])
+    out = "result.json"
+    if "--rerun" in sys.argv or inplace:
+        # first-run results are kept; a re-run after the check was strengthened (or the final in-place
+        # confirmation on /repo) is recorded separately
+        out = "result_inplace.json" if inplace else "result_rerun.json"
     json.dump({"seeded": name, "mode": "inplace" if inplace else "worktree", "tier": tier, "results": results},
-              open(os.path.join(d, "result.json"), "w"), indent=1)
+              open(os.path.join(d, out), "w"), indent=1)
 
 main()
